@@ -126,7 +126,7 @@ def _gen_pix(rng, tier: str, chunk_hint=None) -> dict:
             "u1": rng.choice(Q_UNITS), "u2": rng.choice(Q_UNITS), "u3": rng.choice(Q_UNITS),
             "u4": rng.choice(E_UNITS), "signal": rng.choice(C_UNITS),
         },
-        "extra_coord": rng.random() < 0.2,
+        "extra_coord": rng.choice(["extra", "signal", "error", "npix", "u5", "detector", "obs"]) if rng.random() < 0.25 else False,
         # memory layout of what the caller hands over: own buffers, a window into longer
         # buffers (offset view), or one column of a 2-d array (strided, non-contiguous view)
         "layout": rng.choice(["plain", "plain", "slice", "strided"]),
@@ -413,6 +413,8 @@ def generate(rng, tier: str, i: int, prop: str, nested: bool = False) -> dict:
             scn["faults"] = {"mode": "fsize", "fracs": [rng.random() for _ in range(3)],
                              "tail": [rng.randrange(1, 4096)]}
     if not nested:
+        if rng.random() < 0.12:
+            scn["logging"] = rng.choice(["INFO", "DEBUG"])  # the application has logging switched on
         if rng.random() < 0.15:
             # a different builder writes a different file first, successfully
             scn["predecessor"] = _sub_program(rng, tier, prop)
@@ -479,7 +481,10 @@ def make_pixels(sc, p: dict):
         "ien": sc.array(dims=["obs"], values=ids(500), unit=None),
     }
     if p.get("extra_coord"):
-        coords["extra"] = sc.array(dims=["obs"], values=g.uniform(0, 1, n), unit="s")
+        # coordinates the builder does not use: any name (incl. names of data rows), any unit
+        nm = p["extra_coord"] if isinstance(p["extra_coord"], str) else "extra"
+        unit = {"signal": "count", "error": "count**2", "npix": None}.get(nm, "s")
+        coords[nm] = sc.array(dims=["obs"], values=g.uniform(0, 1, n), unit=unit)
     data = sc.array(dims=["obs"], values=vals(0, 1000), variances=np.abs(vals(0.1, 30)).astype(vd),
                     unit=u["signal"])
     if p.get("coord_order"):
